@@ -16,6 +16,21 @@ rng = random.Random(SEED)
 
 
 _ALL = []
+_TMPDIRS = []
+
+
+def mkdtemp(prefix):
+    """a scratch directory that is removed at the end of the component, also on the early exit after three violations"""
+    import tempfile
+    d = tempfile.mkdtemp(prefix=prefix)
+    _TMPDIRS.append(d)
+    return d
+
+
+def cleanup_tmp():
+    import shutil
+    for d in _TMPDIRS:
+        shutil.rmtree(d, ignore_errors=True)
 
 
 class Component:
@@ -39,6 +54,7 @@ class Component:
             # enough witnesses: stop exploring (keeps a non-terminating mutant from costing one time-out per case)
             emit(_ALL)
             sys.stdout.flush()
+            cleanup_tmp()
             os._exit(0)
 
     def result(self):
